@@ -75,8 +75,10 @@ static Token *preprocess2(Token *tok);
 static Macro *find_macro(Token *tok);
 static void inherit_flags(Token *tok, Token *macro_token, bool is_empty);
 
+// A `#` that results from macro replacement never starts a directive,
+// even if it is the first token on a line (C11 6.10.3.4p3).
 static bool is_hash(Token *tok) {
-  return tok->at_bol && equal(tok, "#");
+  return tok->at_bol && !tok->origin && equal(tok, "#");
 }
 
 // Some preprocessor directives such as #include allow extraneous
